@@ -2,7 +2,7 @@
 from checks import symgen, refqr, refmicro, refrmqr
 
 ID = 'C05'
-PROP_MODULES = ['QRV.Props.C05', 'QRV.Props.C05Ext', 'QRV.Props.C05TooLarge', 'QRV.Props.C05TooLarge2', 'QRV.Props.C05TooLargeKanji']
+PROP_MODULES = ['QRV.Props.C05', 'QRV.Props.C05Ext', 'QRV.Props.C05TooLarge', 'QRV.Props.C05TooLarge2', 'QRV.Props.C05TooLargeKanji', 'QRV.Props.C05EmptyRMQR']
 RULE = ('for every (version, level) row and every mode: payloads of max-1, max, max+1 characters of that row\'s capacity (digits, alphanumerics, bytes, kanji) and mixed-mode payloads '
         'straddling it, x kanji on/off x rMQR priorities {area, height, width}. Oracle: the returned version holds the returned segments by the standard\'s exact bit lengths (kanji per '
         'character), no smaller admissible version (QR: lower number; Micro QR: lower admissible version; rMQR: smaller area / height / width) holds them, and "too large" is answered '
@@ -103,29 +103,17 @@ def gen(ctx):
     # length that fits as ONE byte-mode segment, built from periods on which the mode selection's cost model (sixths of a
     # bit, rounded up per segment) gains or loses against plain bytes: 1-, 4-, 7-digit runs, 7-/15-character alphanumeric
     # runs, runs of 2-byte and 3-byte kanji-mode characters separated by single digits
-    al, hi = 'α'.encode(), '日'.encode()
-    periods = [al * 6 + hi + b'1' + al * 10 + b'1', al * 6 + b'1', al * 9 + hi + b'7', hi * 3 + b'12' + al * 5 + b'3',
-               b'a1234', b'ab1234567', b'aABCDEFG', b'a' + b'ABCDEFGHIJKLMNO' + b'b', b'1234ABCDEFG', b'12345678901234567ABCDEFG' + b'x',
-               al * 4 + b'ABCDEFG', b'1' + hi, b'12' + al + b'A']
     for sym in ('qr', 'mq', 'rm'):
-        ref = symgen.ref(sym)
-        for level in sorted({l for (_, l) in ref.configs()}):
-            nmax = 0
-            for (v, l) in ref.configs():
-                if l == level and 'byte' in ref.kinds_for(v):
-                    n = symgen.fit_single(sym, v, level, 'byte', 0)
-                    nmax = max(nmax, n or 0)
-            if nmax == 0:
-                continue
-            for pi, per in enumerate(periods):
-                if ctx.tier == 'quick' and sym == 'qr' and (pi + level + ctx.seed) % 3 and pi > 0:
-                    continue
-                for n in (nmax, nmax - 1):
-                    body = per * (n // len(per))
-                    pl = (body + b'a' * (n - len(body)))[:n]
-                    for kanji in (0, 1):
-                        for prio in ((0, 1, 2) if sym == 'rm' else (0,)):
-                            add(sym, level, kanji, prio, pl)
+        for level, pl in symgen.rounding_adversarial(sym, ctx.tier == 'quick', ctx.seed):
+            for kanji in (0, 1):
+                for prio in ((0, 1, 2) if sym == 'rm' else (0,)):
+                    add(sym, level, kanji, prio, pl)
+    # the empty payload, every level, kanji on and off
+    for sym in ('qr', 'mq', 'rm'):
+        for level in sorted({l for (_, l) in symgen.ref(sym).configs()}):
+            for kanji in (0, 1):
+                for prio in ((0, 1, 2) if sym == 'rm' else (0,)):
+                    add(sym, level, kanji, prio, b'')
     ctx.c05 = meta
     # function-level correspondence (implementation against model only; OFF by default, VERIF_FUNC_LEVEL=1 switches it on:
     # an unobservable internal change must not be reported): Segment.length and calcVersion of the three
